@@ -52,7 +52,18 @@ pub struct Args {
     pub extra: BTreeMap<String, String>,
 }
 
+/// Install a TRACE-level subscriber that really formats every log event (into a sink), so that a
+/// `Display`/`Debug` impl reached only from a logging statement runs — and can panic — under the harness.
+/// (Log arguments are formatted lazily: without a subscriber such code never executes.)
+pub fn install_tracing() {
+    let _ = tracing_subscriber::fmt()
+        .with_max_level(tracing::Level::TRACE)
+        .with_writer(std::io::sink)
+        .try_init();
+}
+
 pub fn parse_args() -> Args {
+    install_tracing();
     let mut it = std::env::args().skip(1);
     let mut a = Args {
         component: String::new(),
